@@ -433,6 +433,14 @@ impl Model {
             }
             return;
         }
+        // The closed request channel is seen by the same select branch as queued requests, which
+        // the harness lets win over inbound bytes (gating rule): with both pending after a held
+        // context task, HandleClosed comes first.
+        if !self.handles_alive() {
+            self.ctx_return("run", ResPat::Exact("Err:HandleClosed".into()));
+            self.hit("run-handle-closed");
+            return;
+        }
         if !self.inbox.is_empty() {
             while let Some(p) = self.inbox.pop_front() {
                 self.process_packet(p);
